@@ -34,6 +34,16 @@ func (k *Keeper) GetDeposit(ctx sdk.Context, addr sdk.AccAddress) (deposit types
 	return deposit, true
 }
 
+// DeleteDeposit removes the deposit of an account address from the module's KVStore.
+func (k *Keeper) DeleteDeposit(ctx sdk.Context, addr sdk.AccAddress) {
+	var (
+		store = k.Store(ctx)
+		key   = types.DepositKey(addr)
+	)
+
+	store.Delete(key)
+}
+
 // GetDeposits retrieves all deposits stored in the module's KVStore.
 func (k *Keeper) GetDeposits(ctx sdk.Context) (items types.Deposits) {
 	var (
@@ -120,7 +130,13 @@ func (k *Keeper) SendCoinsFromDepositToAccount(ctx sdk.Context, fromAddr, toAddr
 		return err
 	}
 
-	k.SetDeposit(ctx, deposit)
+	// A deposit without coins is not a valid record: remove it instead of storing it empty.
+	if deposit.Coins.IsZero() {
+		k.DeleteDeposit(ctx, fromAddr)
+	} else {
+		k.SetDeposit(ctx, deposit)
+	}
+
 	ctx.EventManager().EmitTypedEvent(
 		&types.EventSubtract{
 			Address: fromAddr.String(),
@@ -148,7 +164,13 @@ func (k *Keeper) SendCoinsFromDepositToModule(ctx sdk.Context, fromAddr sdk.AccA
 		return err
 	}
 
-	k.SetDeposit(ctx, deposit)
+	// A deposit without coins is not a valid record: remove it instead of storing it empty.
+	if deposit.Coins.IsZero() {
+		k.DeleteDeposit(ctx, fromAddr)
+	} else {
+		k.SetDeposit(ctx, deposit)
+	}
+
 	ctx.EventManager().EmitTypedEvent(
 		&types.EventSubtract{
 			Address: fromAddr.String(),
